@@ -55,7 +55,8 @@ class C17(Prop):
 
         def fresh():
             value[0] += 1
-            return value[0]
+            # mostly unique numbers; now and then the legitimate element None
+            return None if s.chance(1, 10, "none-element") else value[0]
 
         init_vals = [fresh() for _ in range(initial)]
         # weights: enq, enqmany, start, cancel_recv, finish, finish_err, cancel_q
@@ -115,10 +116,10 @@ class C17(Prop):
         def on_value(v, cid):
             rec, acc = st["received"], st["accepted"]
             sim.event("recv", cid, v)
-            if len(rec) < len(acc) and acc[len(rec)] == v:
+            if len(rec) < len(acc) and acc[len(rec)] == v and (v is None) == (acc[len(rec)] is None):
                 rec.append(v)
                 return
-            if v in rec:
+            if v is not None and v in rec:
                 sim.fail("duplicate", f"element {v} received twice (received so far {rec})")
             if v in acc:
                 sim.fail("lost", f"received {v} but expected {acc[len(rec)]}: an earlier accepted element was skipped "
